@@ -364,6 +364,7 @@ def validate_cases(ctx, module, cfg, recfile, sig, label, rerun=None, sigv=None,
             write_ndjson(one, [rec])
             e2 = dict(e)
             e2["VERIF_CASES"] = one
+            e2["VERIF_CHUNK_STRIDE"] = 1
             r2 = ctx.tlc(module, cfg, env=e2, timeout=600, workers=1, name="repro")
             if not r2.violations:
                 raise Infra("violation of case %d (%s) did not reproduce" % (ci, label))
